@@ -17,6 +17,7 @@ import (
 
 func main() {
 	log.SetOutput(io.Discard)
+	drv.ChildMain() // real-worker scenarios run in a child process of this binary
 	Main(drv.Run, gen)
 }
 
